@@ -15,6 +15,8 @@ import WuffsVerif.Model.HashSpec
      -> p=<64 bytes portable> a=<64 bytes avx2 emulation> inrange=<0|1>
   idctp … -> p=<…> inrange=<0|1>
   adler32|crc32|crc64 <hex> -> v <decimal>
+  adler32x|crc32x|crc64x <seg>…   seg = h:<hex> | r:<hh>*<count>   (long worst-case inputs, e.g. runs of 0xFF)
+     -> v <decimal>
 -/
 open WuffsVerif WuffsVerif.Line
 
@@ -172,6 +174,26 @@ def hashOp (f : List UInt8 → Nat) (l : List String) : String :=
     | none => "bad-op"
   | _ => "bad-op"
 
+/-- segments `h:<hex>` (literal bytes) and `r:<hh>*<count>` (a run of one byte value) -/
+def parseSegs : List String → Option (List UInt8)
+  | [] => some []
+  | s :: rest => do
+    let tl ← parseSegs rest
+    if s.startsWith "h:" then (fromHex (s.drop 2).toString).map (· ++ tl)
+    else if s.startsWith "r:" then
+      match (s.drop 2).toString.splitOn "*" with
+      | [hh, cnt] =>
+        match fromHex hh, cnt.toNat? with
+        | some [b], some n => some (List.replicate n b ++ tl)
+        | _, _ => none
+      | _ => none
+    else none
+
+def hashSegOp (f : List UInt8 → Nat) (l : List String) : String :=
+  match parseSegs l with
+  | some bs => "v " ++ toString (f bs)
+  | none => "bad-op"
+
 def step (l : List String) : String :=
   match l with
   | "init" :: rest => initOp rest
@@ -181,6 +203,9 @@ def step (l : List String) : String :=
   | "adler32" :: rest => hashOp HashSpec.adler32 rest
   | "crc32" :: rest => hashOp HashSpec.crc32 rest
   | "crc64" :: rest => hashOp HashSpec.crc64 rest
+  | "adler32x" :: rest => hashSegOp HashSpec.adler32 rest
+  | "crc32x" :: rest => hashSegOp HashSpec.crc32 rest
+  | "crc64x" :: rest => hashSegOp HashSpec.crc64 rest
   | _ => "bad-op"
 
 end C09
